@@ -164,7 +164,8 @@ def gen_insertions(rnd, dim, stale_rate):
     if not ids:
         return []
     out = []
-    for k in range(rnd.choice([1, 1, 2, 3])):
+    id_mode = rnd.choice(["all", "none", "none", "mixed"])
+    for k in range(rnd.choice([1, 2, 2, 3])):
         pos = rnd.sample(ids, min(len(ids), rnd.choice([1, 2, 2, 3])))
         if rnd.random() < stale_rate:
             pos.append(9999)
@@ -179,7 +180,7 @@ def gen_insertions(rnd, dim, stale_rate):
             ins["kwargs"] = {"positive": pos}
             if rnd.random() < 0.35:
                 ins["kwargs"]["negative"] = rnd.sample(ids, min(len(ids), rnd.choice([1, 2])))
-        if rnd.random() < 0.6:
+        if id_mode == "all" or (id_mode == "mixed" and rnd.random() < 0.5):
             ins["id"] = rnd.choice([k + 1, k + 1, 10 + k, 1])
         if rnd.random() < 0.15:
             ins["hide"] = True
